@@ -309,7 +309,7 @@ def random_scenario(r, n_glyphs=None, reuse_bias=0.5, allow_gradients=True, allo
 LATTICE_CONFIG = {"upem": 1000, "ascender": 800, "descender": -200, "width": 1000}   # viewBox 100 -> 10 units per unit
 
 
-def lattice_scenario(r, n_glyphs=None):
+def lattice_scenario(r, n_glyphs=None, same_gradient=None):
     """Axis-aligned copies on an integer lattice: per-axis scales from {1, 2, 3, 1/2, -1}, integer translations, so
     that reuse transforms are scale(+translate) with a scale of exactly 1 on one axis and integer scale centres."""
     n_glyphs = n_glyphs or r.randrange(1, 3)
@@ -317,6 +317,13 @@ def lattice_scenario(r, n_glyphs=None):
     cell = r.choice([2, 4])
     glyphs = []
     specs_all = []
+    # sometimes every copy carries "the same" gradient, laid corner to corner over its own box in user space: after the
+    # counter-transform of a non-uniformly scaled copy its end points coincide with the donor's while its normal (P2)
+    # does not - gradients that are equal up to one field
+    st = [(0.0, r.choice(PALETTE[:4]), 1), (1.0, r.choice(PALETTE[4:]), 1)]
+    same = None
+    if same_gradient or (same_gradient is None and r.random() < 0.35):
+        same = FillSpec("linear", stops=st, units="userSpaceOnUse", spread=r.choice(["pad", "reflect"]), gt=None, geom=(0.0, 0.0, 1.0, 1.0))
     for g in range(n_glyphs):
         specs = []
         for i in range(r.randrange(2, 4)):
@@ -327,8 +334,8 @@ def lattice_scenario(r, n_glyphs=None):
             elif r.random() < 0.1:
                 sx, sy = r.choice([(-2, -1), (1, -1), (-1, -2)])
             tx, ty = r.randrange(15, 80), r.randrange(15, 80)
-            fill = random_fill(r, allow_gradients=(r.random() < 0.4), allow_special=False)
-            specs.append(LayerSpec(cls, (cell * sx, 0, 0, cell * sy, tx, ty), fill, r.choice([1, 1, 0.5])))
+            fill = same if same is not None else random_fill(r, allow_gradients=(r.random() < 0.4), allow_special=False)
+            specs.append(LayerSpec(cls, (cell * sx, 0, 0, cell * sy, tx, ty), fill, r.choice([1, 1, 0.5]) if same is None else 1.0))
         glyphs.append((CODEPOINTS[g], (0, 0, 100, 100), specs))
     return glyphs
 
